@@ -193,6 +193,23 @@ func (p *IdentityProvider) ssoHandleFunc(w http.ResponseWriter, r *http.Request)
 		},
 	)
 
+	// check if the chosen protocolbinding can be used to deliver a response, before anything is persisted
+	checkerInstance.WithLogicStep(
+		func() error {
+			switch response.ProtocolBinding {
+			case RedirectBinding, PostBinding:
+				return nil
+			}
+			return fmt.Errorf("unsupported binding: %s", response.ProtocolBinding)
+		},
+		func() {
+			unsupported := response.ProtocolBinding
+			// the consumer endpoint can not be reached with this binding, so the response is returned directly
+			response.AcsUrl, response.ProtocolBinding = "", ""
+			response.sendBackResponse(r, w, response.makeFailedResponse(StatusCodeUnsupportedBinding, fmt.Errorf("unsupported binding: %s", unsupported).Error(), p.TimeFormat))
+		},
+	)
+
 	checkerInstance.WithLogicStep(
 		checkRequestRequiredContent(
 			func() *md.IDPSSODescriptorType { return metadata },
